@@ -280,6 +280,7 @@ def run(ctx: Ctx):
     _numeric_sort_keys(ctx)
     # ---- S6 a loop-carried accumulator whose length is asserted at emission is drained there -------------------------
     _drained_accumulators(ctx)
+    _format_constants_and_order(ctx)
     plumbing(ctx, "S1")
     return dict(
         explanation=(
@@ -391,6 +392,42 @@ def _numeric_sort_keys(ctx: Ctx):
                        f"of ten (every file longer than 10 s) is read back out of order and its gaps are filled wrongly", rel,
                        it.lineno, sample=u(it)[:80])
     col.floor("text_sorted_numeric_records", n_sites, 2)
+
+
+def _format_constants_and_order(ctx: Ctx):
+    """S7: (a) in a ctm file a comment starts with TWO semicolons; a single `;` is an ordinary character of a token or a file name.
+    The reader may only cut a line at `;;`. (b) A TextGrid tier spans [min start, max end] over ALL entries of the transcript: the
+    writer accepts entries in any order (the reader sorts), so its extent must be an aggregate over the entries, never the time of
+    the entry that happens to be first or last."""
+    col, pkg = ctx.col, ctx.pkg
+    rel = pkg.module(MOD).relname
+    rc = pkg.func(f"{MOD}::read_ctm")
+    cuts = []
+    for c in own_calls(rc.node):
+        if isinstance(c.func, ast.Attribute) and c.func.attr in ("split", "partition", "find", "index") and c.args \
+                and isinstance(c.args[0], ast.Constant) and isinstance(c.args[0].value, str) and ";" in c.args[0].value:
+            cuts.append(c)
+    col.floor("ctm_comment_cuts", len(cuts), 1)
+    bad = [c for c in cuts if c.args[0].value != ";;"]
+    col.ob("G13", "S7", f"{rel}::read_ctm::comment-starts-with-two-semicolons", not bad,
+           (f"`{u(bad[0])[:60]}` cuts a ctm line at `{bad[0].args[0].value}`; the format's comment marker is `;;` - a token or waveform "
+            f"name containing one semicolon would be truncated (or the line rejected for having too few fields)") if bad else "", rel,
+           bad[0].lineno if bad else rc.line, sample=[u(c)[:50] for c in cuts])
+    wt = pkg.func(f"{MOD}::write_textgrid")
+    tname = wt.params[0].name
+    pos = [n for n in own_nodes(wt.node) if isinstance(n, ast.Subscript) and isinstance(n.value, ast.Name) and n.value.id == tname
+           and isinstance(n.ctx, ast.Load) and (isinstance(n.slice, ast.Constant) or (isinstance(n.slice, ast.UnaryOp) and isinstance(n.slice.operand, ast.Constant)))]
+    aggs = {}
+    for c in own_calls(wt.node):
+        # min(...) / max(...) over a comprehension of the transcript (whichever way the start / end field is picked)
+        if call_name(c) in ("min", "max") and c.args and isinstance(c.args[0], (ast.GeneratorExp, ast.ListComp)) \
+                and any(isinstance(x, ast.Name) and x.id == tname for x in ast.walk(c.args[0].generators[0].iter)):
+            aggs[call_name(c)] = c
+    col.ob("G17", "S7", f"{rel}::write_textgrid::tier-extent-is-an-aggregate-over-all-entries", not pos and {"min", "max"} <= set(aggs),
+           (f"`{u(pos[0])}` reads the entry at a fixed position of the transcript: " if pos else "the tier extent is computed as "
+            f"{sorted(aggs)}: ") + "the tier must span min(start) .. max(end) over all entries whatever their order, else the written xmax "
+           "is too small, trailing gap filling is wrong and a too-short end_time is accepted", rel, pos[0].lineno if pos else wt.line,
+           sample=sorted(map(str, aggs)))
 
 
 def _mutants():
